@@ -44,7 +44,7 @@ ASSUMPTIONS = ["GIL: no interleaving inside one bytecode line", "deterministic c
 BOUNDS = {"quick": {"max_nodes": 5, "max_dev": 1, "preemptions": 1, "pool_sizes": [1, 2, 3], "seeds": 16},
           "thorough": {"max_nodes": 6, "max_dev": 2, "preemptions": "1 everywhere; 2 for [one,one], [chain2,one], [join,one] at pool size 2",
                        "pool_sizes": [1, 2, 3], "seeds": 64}}
-CAP_S = {"quick": 200, "thorough": 3000}
+CAP_S = {"quick": 200, "thorough": 7200}
 
 # connected sub-graph shapes over local indices
 SUB = {
